@@ -122,7 +122,14 @@ func (c *candidateBase) Foundation() string {
 		return c.foundationOverride
 	}
 
-	return fmt.Sprintf("%d", crc32.ChecksumIEEE([]byte(c.Type().String()+c.address+c.networkType.String())))
+	// The foundation is a function of the address, not of how it was written: an IPv6
+	// address has many spellings, an IPv4 address an IPv4-mapped one.
+	address := c.address
+	if ip, err := netip.ParseAddr(address); err == nil {
+		address = ip.Unmap().String()
+	}
+
+	return fmt.Sprintf("%d", crc32.ChecksumIEEE([]byte(c.Type().String()+address+c.networkType.String())))
 }
 
 // Address returns Candidate Address.
